@@ -12,6 +12,8 @@ _attach; WBS.__root is bound only in the constructor; the detach loop of the chi
 return is fine only when its condition means nobody can have been dropped); move / reorder put back every task they take out.
 Round 5: the snapshot of the old children may be filled by a loop; members_listed_once and the owner-set rule (shared with
 C05/C01) also run under C11.
+Round 7: move must reject a batch that contains its own anchor before it touches the shared list (per-element guards are read as
+`anchor in batch`).
 Not decided: a memoised all_children whose invalidation looks complete (UNDECIDED).
 """
 from __future__ import annotations
@@ -112,6 +114,12 @@ def check(ctx):
         from .c05 import own_shared
         own_shared(ctx, o, eff)
     ctx.guarded(o, _own)
+
+    o = ctx.ob('move_rejects_anchor_in_batch', 'R2',
+               "_ChildrenList.move: a batch of tasks that contains its own before/after anchor is rejected with RuntimeError before the "
+               "shared list is touched (otherwise the anchor is taken out, index(anchor) fails and the task is left outside the children "
+               "list while it still reports the WBS)", floor=1)
+    ctx.guarded(o, lambda o: move_anchor(ctx, o, eff))
 
     o = ctx.ob('removal_paths_delegate', 'R8',
                "list removal, remove_all, WBS.remove / remove_all and roots assignment all end in a children assignment on the owning task", floor=4)
@@ -652,6 +660,61 @@ def owner_guards(ctx, o, eff):
 def _shared_list(ctx, o):
     from .c05_util import shared_list
     shared_list(ctx, o)
+
+
+def move_anchor(ctx, o, eff):
+    import re
+    prog = ctx.prog
+    f = prog.func('task._ChildrenList.move')
+    ps = [p for p in f.params if p != f.self_name]
+    if len(ps) < 3:
+        o.undecided(f, f.node, 'move', "move has an unexpected signature")
+        return
+    b, a = ps[1], ps[2]
+    cfg = cfg_of(f)
+    writes = relation_write_nodes(ctx, f, eff)
+    gfs = T.guard_formulas(ctx, f)
+    early = [g for g in gfs if not T.writes_not_preceded(cfg, f, T._as_gf(g), writes)]
+    late = [g for g in gfs if g not in early]
+    R = T.F_or(T.F_atom(f'in({b},arg)'), T.F_atom(f'in({a},arg)'))
+    usable = [g for g in early if g.exc == 'RuntimeError']
+
+    def exists_form(g):
+        """a guard evaluated for every element e of the batch: `e is X` for some e  ==  `X in batch`"""
+        if not g.per_element:
+            return g.formula
+
+        def ren(fm):
+            k = fm[0]
+            if k == 'atom':
+                m = re.match(r"^same\((.*),elem\)$", fm[1]) or re.match(r"^same\(elem,(.*)\)$", fm[1])
+                return ('atom', f"in({m.group(1)},arg)") if m else fm
+            if k == 'not':
+                return ('not', ren(fm[1]))
+            if k in ('and', 'or'):
+                return (k, [ren(x) for x in fm[1]])
+            return fm
+        return ren(g.formula)
+    if T.implication(R, [exists_form(g) for g in usable]) is None:
+        hit = next((g for g in usable if T.atoms_of(g.formula) & T.atoms_of(R)), None)
+        o.site(f, hit.node if hit else f.node, "anchor inside the batch => RuntimeError before the list is changed")
+        return
+    late_rt = [g for g in late if g.exc == 'RuntimeError']
+    if late_rt and T.implication(R, [exists_form(g) for g in usable + late_rt]) is None:
+        g = next((x for x in late_rt if T.atoms_of(x.formula) & T.atoms_of(R)), late_rt[0])
+        o.refute(f, g.node, g.node, "a batch that contains its own anchor is only rejected after the shared list was already changed")
+        return
+    atoms = set().union(*[T.atoms_of(g.formula) for g in gfs]) if gfs else set()
+    odd = sorted(x for x in atoms if x.startswith('opaque:') or (re.match(r"^in\(.*,arg\)$", x) and x not in T.atoms_of(R)) or
+                 (re.search(r"\belem\b", x) and (b in x or a in x)))
+    helpers = T.unfolded_raising_helpers(ctx, f, eff)
+    if odd or helpers:
+        o.undecided(f, f.node, 'anchor in batch', "cannot tell that a batch containing its anchor is rejected (" + (odd[0][:60] if odd else helpers[0]) + ")")
+        return
+    ident = sorted(x for x in atoms if x.startswith('same(') and 'arg' in x)
+    o.refute(f, f.node, 'anchor in batch', "move does not reject a batch of tasks that contains its own before/after anchor before it changes the "
+             "shared list" + (f" (it only tests `{ident[0]}`: the whole argument against the anchor by identity)" if ident else "") +
+             ": the loop takes the anchor out, index(anchor) fails and the task is left outside the children list while it reports the WBS")
 
 
 def root_fixed(ctx, o, eff):
